@@ -18,6 +18,9 @@ Contents
   `eexec_stream`.
 * `endEexec`: `endEexec_run`, `Sim.endEexec_at_end`; look-ahead past the end: `Sim.peek_past_end_binary`.
 * tokenizer loops at equal fuel: `SimM.readRegular`, `SimM.readStringBody`, ….
+* clear scanners: `next_clear`, `peekN_spec`, `Mono` (operations only consume), `AgreeOn`/`FI` (fuel independence
+  of every loop once the fuel exceeds the bytes left: `FI.readRegular` … `FI.skipWhiteSpace`), `SimM.fuel_bind`,
+  and with them `SimM.skipWhiteSpace`, `SimM.readString`, …, `SimM.scanToken`.
 -/
 namespace PsVerif.Proofs.EexecStream
 open PsVerif.Model PsVerif.Model.Scan PsVerif.Model.Cipher
@@ -1158,9 +1161,10 @@ theorem Sim.peek_past_end_binary {cipher rest : List UInt8} {se sp : Scanner} (h
 /-! ### the scanner's loops at equal fuel
 
 Every loop of the tokenizer that reads only through `next`/`peek`/`peekN` is simulation-invariant for each fixed
-fuel. (What is missing for `scanToken` itself: it computes its fuel from `fuelOf s`, which depends on the length of
-the RAW source and therefore differs between the two sides; one needs in addition that each loop's result does not
-depend on the fuel once the fuel is large enough.) -/
+fuel. `scanToken` computes its fuel from `fuelOf s`, which depends on the length of the RAW source and therefore
+differs between the two sides; further down (`FI.…`, `SimM.fuel_bind`) it is shown that on clear scanners each
+loop's result does not depend on the fuel once the fuel exceeds the number of bytes left to read, which gives
+`SimM.scanToken`. -/
 
 theorem SimM.ite {α : Type} {c : Prop} [Decidable c] {a b : SM α} (ha : SimM a) (hb : SimM b) :
     SimM (if c then a else b) := by
@@ -1281,10 +1285,877 @@ theorem SimM.readCommentKey (fuel : Nat) : ∀ acc, SimM (readCommentKey fuel ac
     · exact SimM.fail _
     · exact SimM.ite (SimM.pure _) (SimM.bind SimM.skipByte (fun _ => SimM.ite (SimM.pure _) (ih _)))
 
+
+/-! ### clear scanners: every operation consumes its input monotonically -/
+
+/-- number of bytes a clear scanner can still deliver -/
+def mu (s : Scanner) : Nat := s.peek.length + s.src.length
+
+theorem readByte_clear_nil (s : Scanner) (hc : Clear s) (hs : s.src = []) :
+    ∃ e s', readByte s = (.error e, s') ∧ Clear s' ∧ s'.peek = s.peek ∧ s'.src = [] := by
+  rw [readByte_clear s hc.1]
+  obtain ⟨h0, h1⟩ := hc
+  obtain ⟨src, fault, peek, reg, eexec, r, line, col, crSeen, dsc, err⟩ := s
+  simp only at hs h0 h1
+  subst hs h0 h1
+  cases err with
+  | none => exact ⟨_, _, rfl, ⟨rfl, rfl⟩, rfl, rfl⟩
+  | some e => exact ⟨e, _, rfl, ⟨rfl, rfl⟩, rfl, rfl⟩
+
+theorem readByte_clear_cons (s : Scanner) (hc : Clear s) (b : UInt8) (x : List UInt8) (hs : s.src = b :: x) :
+    readByte s = (.ok b, { s with src := x }) := by
+  rw [readByte_clear s hc.1]
+  exact readByteRaw_src s b x (Or.inl hc.2) hs
+
+theorem bump_clear (b : UInt8) (s : Scanner) (hc : Clear s) : Clear (bump b s) := hc
+theorem bump_mu (b : UInt8) (s : Scanner) : mu (bump b s) = mu s := rfl
+
+/-- `Next` on a clear scanner: a byte is delivered and the scanner has one byte less, or nothing changes
+but the sticky error -/
+theorem next_clear (s : Scanner) (hc : Clear s) :
+    Clear (next s).2 ∧ (∀ b, (next s).1 = .ok b → mu (next s).2 + 1 = mu s) ∧
+      (∀ e, (next s).1 = .error e → mu (next s).2 = mu s) := by
+  cases hp : s.peek with
+  | cons b p =>
+    rw [next_peeked s b p hc.2 hp]
+    refine ⟨hc, fun _ _ => ?_, (fun e h => by cases h)⟩
+    simp [mu, bump, hp]; omega
+  | nil =>
+    cases hsrc : s.src with
+    | nil =>
+      obtain ⟨e, s', h1, h2, h3, h4⟩ := readByte_clear_nil s hc hsrc
+      have : next s = (.error e, s') := by
+        rw [next_eq, getS_bind_run]
+        unfold nextK
+        have : (!s.peek.isEmpty && !s.regurgitate) = false := by simp [hp]
+        rw [this]
+        simp only [Bool.false_eq_true, if_false]
+        exact bind_err _ _ _ _ _ h1
+      rw [this]
+      exact ⟨h2, (fun b h => by cases h), fun _ _ => by simp [mu, h3, h4, hp, hsrc]⟩
+    | cons b x =>
+      rw [next_read s _ b (Or.inl hp) (readByte_clear_cons s hc b x hsrc)]
+      refine ⟨hc, fun _ _ => ?_, (fun e h => by cases h)⟩
+      simp [mu, bump, hp, hsrc]
+
+theorem peek_clear_nil (s : Scanner) (hc : Clear s) (hp : s.peek = []) (hs : s.src = []) :
+    ∃ e s', Scan.peek s = (.error e, s') ∧ Clear s' ∧ s'.peek = [] ∧ s'.src = [] := by
+  obtain ⟨e, s', h1, h2, h3, h4⟩ := readByte_clear_nil s hc hs
+  refine ⟨e, s', ?_, h2, by rw [h3, hp], h4⟩
+  rw [EexecStream.peek_eq, getS_bind_run, hp]
+  unfold peekK
+  exact bind_err _ _ _ _ _ h1
+
+/-- `Peek` on a clear scanner: the stream is unchanged; after success a byte is in the peek buffer -/
+theorem peek_clear' (s : Scanner) (hc : Clear s) :
+    Clear (Scan.peek s).2 ∧ mu (Scan.peek s).2 = mu s ∧ s.peek.length ≤ (Scan.peek s).2.peek.length ∧
+      (∀ b, (Scan.peek s).1 = .ok b → (Scan.peek s).2.peek ≠ []) := by
+  cases hl : s.peek ++ s.src with
+  | nil =>
+    have hp : s.peek = [] := (List.append_eq_nil_iff.mp hl).1
+    have hs : s.src = [] := (List.append_eq_nil_iff.mp hl).2
+    obtain ⟨e, s', h1, h2, h3, h4⟩ := peek_clear_nil s hc hp hs
+    rw [h1]
+    exact ⟨h2, by simp [mu, h3, h4, hp, hs], by simp [hp], (fun b h => by cases h)⟩
+  | cons b x =>
+    rw [peek_clear s b x hc hl]
+    refine ⟨fill1_clear s hc, ?_, ?_, fun _ _ => ?_⟩
+    · have := congrArg List.length (fill1_stream s)
+      simp only [List.length_append] at this
+      exact this
+    · unfold fill1; split
+      · rename_i h; simp [h]
+      · exact Nat.le_refl _
+    · obtain ⟨p, hp, _⟩ := fill1_eat s b x hl
+      rw [hp]; simp
+
+/-- `PeekN` on a clear scanner: the stream is unchanged, the peek buffer only grows, and the value returned is
+the head of the peek buffer -/
+theorem peekN_spec (n fuel : Nat) (s : Scanner) (hc : Clear s) :
+    ∃ bb s', peekN n fuel s = (.ok bb, s') ∧ Clear s' ∧ s'.peek ++ s'.src = s.peek ++ s.src ∧
+      s.peek.length ≤ s'.peek.length ∧ bb = s'.peek.take n := by
+  induction fuel generalizing s with
+  | zero =>
+    refine ⟨s.peek.take n, s, ?_, hc, rfl, Nat.le_refl _, rfl⟩
+    unfold peekN
+    rw [getS_bind_run]; rfl
+  | succ fuel ih =>
+    unfold peekN
+    rw [getS_bind_run]
+    by_cases hlen : s.peek.length ≥ n
+    · rw [if_pos hlen]
+      exact ⟨s.peek.take n, s, rfl, hc, rfl, Nat.le_refl _, rfl⟩
+    · rw [if_neg hlen]
+      cases hsrc : s.src with
+      | nil =>
+        obtain ⟨e, s', h1, h2, h3, h4⟩ := readByte_clear_nil s hc hsrc
+        rw [bind_ok _ _ s s' (.error e) (by simp [Scan.attempt, h1])]
+        simp only
+        rw [getS_bind_run]
+        refine ⟨s'.peek, s', rfl, h2, by rw [h3, h4], by rw [h3]; exact Nat.le_refl _, ?_⟩
+        rw [List.take_of_length_le (by rw [h3]; omega)]
+      | cons b x =>
+        have h1 := readByte_clear_cons s hc b x hsrc
+        rw [bind_ok _ _ s { s with src := x } (.ok b) (by simp [Scan.attempt, h1])]
+        simp only
+        rw [modS_bind_run]
+        obtain ⟨bb, s', g1, g2, g3, g4, g5⟩ := ih { s with src := x, peek := s.peek ++ [b] } hc
+        refine ⟨bb, s', g1, g2, by rw [g3]; simp, ?_, g5⟩
+        have : s.peek.length ≤ (s.peek ++ [b]).length := by simp
+        exact Nat.le_trans this g4
+
+theorem lookingAt_spec (pat : List UInt8) (s : Scanner) (hc : Clear s) :
+    ∃ x s', lookingAt pat s = (.ok x, s') ∧ Clear s' ∧ s'.peek ++ s'.src = s.peek ++ s.src ∧
+      s.peek.length ≤ s'.peek.length ∧ (x = true → s'.peek.take pat.length = pat) := by
+  obtain ⟨bb, s', h1, h2, h3, h4, h5⟩ := peekN_spec pat.length (pat.length + 1) s hc
+  refine ⟨bb == pat, s', ?_, h2, h3, h4, fun hx => ?_⟩
+  · unfold lookingAt
+    rw [bind_ok _ _ _ _ _ h1]; rfl
+  · rw [← h5]; simpa using hx
+
+/-- looking at the same pattern again changes nothing -/
+theorem lookingAt_again (pat : List UInt8) (s : Scanner) (h : s.peek.take pat.length = pat) :
+    lookingAt pat s = (.ok true, s) := by
+  have hl : s.peek.length ≥ pat.length := by
+    have := congrArg List.length h
+    simp only [List.length_take] at this
+    omega
+  unfold lookingAt peekN
+  rw [bind_ok _ _ s s (s.peek.take pat.length) (by rw [getS_bind_run, if_pos hl]; rfl), h]
+  simp [pure_run]
+
+/-- on clear scanners `m` keeps the scanner clear and does not lengthen what is left to read -/
+def Mono {α : Type} (m : SM α) : Prop := ∀ s, Clear s → Clear (m s).2 ∧ mu (m s).2 ≤ mu s
+
+theorem Mono.pure {α : Type} (a : α) : Mono (Pure.pure a : SM α) := fun _ h => ⟨h, Nat.le_refl _⟩
+theorem Mono.fail {α : Type} (e : Err) : Mono (Scan.fail e : SM α) := fun _ h => ⟨h, Nat.le_refl _⟩
+
+theorem Mono.bind {α β : Type} {m : SM α} {k : α → SM β} (hm : Mono m) (hk : ∀ a, Mono (k a)) : Mono (m >>= k) := by
+  intro s hc
+  have h1 := hm s hc
+  rw [bind_run]
+  generalize m s = p at h1
+  obtain ⟨r, s'⟩ := p
+  cases r with
+  | error e => exact h1
+  | ok a =>
+    have h2 := hk a s' h1.1
+    exact ⟨h2.1, Nat.le_trans h2.2 h1.2⟩
+
+theorem Mono.attempt {α : Type} {m : SM α} (hm : Mono m) : Mono (Scan.attempt m) := fun s hc => hm s hc
+
+theorem Mono.ite {α : Type} {c : Prop} [Decidable c] {a b : SM α} (ha : Mono a) (hb : Mono b) :
+    Mono (if c then a else b) := by
+  split <;> assumption
+
+theorem Mono.getS_bind {β : Type} {k : Scanner → SM β} (hk : ∀ s0, Mono (k s0)) : Mono (getS >>= k) := by
+  intro s hc
+  rw [getS_bind_run]
+  exact hk s s hc
+
+theorem Mono.modS {f : Scanner → Scanner} (hf : ∀ s, Clear s → Clear (f s) ∧ mu (f s) ≤ mu s) : Mono (Scan.modS f) :=
+  fun s hc => hf s hc
+
+theorem Mono.next : Mono next := fun s hc => by
+  obtain ⟨h1, h2, h3⟩ := next_clear s hc
+  refine ⟨h1, ?_⟩
+  generalize Scan.next s = p at h2 h3
+  obtain ⟨r, s'⟩ := p
+  cases r with
+  | ok b => have := h2 b rfl; omega
+  | error e => have := h3 e rfl; omega
+
+theorem Mono.peek : Mono Scan.peek := fun s hc => by
+  obtain ⟨h1, h2, _, _⟩ := peek_clear' s hc
+  exact ⟨h1, Nat.le_of_eq h2⟩
+
+theorem mu_of_stream {s s' : Scanner} (h : s'.peek ++ s'.src = s.peek ++ s.src) : mu s' = mu s := by
+  have := congrArg List.length h
+  simpa [mu] using this
+
+theorem Mono.peekN (n fuel : Nat) : Mono (peekN n fuel) := fun s hc => by
+  obtain ⟨bb, s', h1, h2, h3, _, _⟩ := peekN_spec n fuel s hc
+  rw [h1]
+  exact ⟨h2, Nat.le_of_eq (mu_of_stream h3)⟩
+
+theorem Mono.lookingAt (pat : List UInt8) : Mono (lookingAt pat) :=
+  Mono.bind (Mono.peekN _ _) (fun _ => Mono.pure _)
+
+theorem Mono.skipByte : Mono skipByte := Mono.bind (Mono.attempt Mono.next) (fun _ => Mono.pure _)
+
+theorem Mono.skipN (n : Nat) : Mono (skipN n) := by
+  induction n with
+  | zero => exact Mono.pure _
+  | succ n ih => exact Mono.bind Mono.skipByte (fun _ => ih)
+
+theorem Mono.skipRequiredByte (b : UInt8) : Mono (skipRequiredByte b) :=
+  Mono.bind Mono.next (fun _ => Mono.ite (Mono.fail _) (Mono.pure _))
+
+theorem Mono.skipOptionalByte (b : UInt8) : Mono (skipOptionalByte b) := by
+  refine Mono.bind (Mono.attempt Mono.peek) (fun r => ?_)
+  cases r with
+  | error e => exact Mono.pure _
+  | ok nb => exact Mono.ite Mono.skipByte (Mono.pure _)
+
+theorem Mono.readOctal (n : Nat) : ∀ oct, Mono (readOctal n oct) := by
+  induction n with
+  | zero => intro oct; exact Mono.pure _
+  | succ n ih =>
+    intro oct
+    unfold Scan.readOctal
+    refine Mono.bind (Mono.attempt Mono.peek) (fun r => ?_)
+    split
+    · exact Mono.pure _
+    · exact Mono.fail _
+    · exact Mono.ite (Mono.pure _) (Mono.bind Mono.skipByte (fun _ => ih _))
+
+theorem Mono.skipToEOL (fuel : Nat) : Mono (skipToEOL fuel) := by
+  induction fuel with
+  | zero => exact Mono.pure _
+  | succ fuel ih =>
+    unfold Scan.skipToEOL
+    refine Mono.bind (Mono.attempt Mono.next) (fun r => ?_)
+    split
+    · exact Mono.pure _
+    · exact Mono.ite (Mono.pure _) (Mono.ite (Mono.skipOptionalByte _) ih)
+
+theorem Mono.readLine (fuel : Nat) : ∀ acc, Mono (readLine fuel acc) := by
+  induction fuel with
+  | zero => intro acc; exact Mono.pure _
+  | succ fuel ih =>
+    intro acc
+    unfold Scan.readLine
+    refine Mono.bind (Mono.attempt Mono.next) (fun r => ?_)
+    split
+    · exact Mono.pure _
+    · exact Mono.fail _
+    · exact Mono.ite (Mono.pure _) (Mono.ite (Mono.bind (Mono.skipOptionalByte _) (fun _ => Mono.pure _)) (ih _))
+
+theorem Mono.skipBlanks (fuel : Nat) : Mono (skipBlanks fuel) := by
+  induction fuel with
+  | zero => exact Mono.pure _
+  | succ fuel ih =>
+    unfold Scan.skipBlanks
+    refine Mono.bind (Mono.attempt Mono.peek) (fun r => ?_)
+    split
+    · exact Mono.pure _
+    · exact Mono.fail _
+    · exact Mono.ite (Mono.pure _) (Mono.bind Mono.skipByte (fun _ => ih))
+
+theorem Mono.readCommentKey (fuel : Nat) : ∀ acc, Mono (readCommentKey fuel acc) := by
+  induction fuel with
+  | zero => intro acc; exact Mono.pure _
+  | succ fuel ih =>
+    intro acc
+    unfold Scan.readCommentKey
+    refine Mono.bind (Mono.attempt Mono.peek) (fun r => ?_)
+    split
+    · exact Mono.pure _
+    · exact Mono.fail _
+    · exact Mono.ite (Mono.pure _) (Mono.bind Mono.skipByte (fun _ => Mono.ite (Mono.pure _) (ih _)))
+
+theorem Mono.readCommentValue (fuel : Nat) : ∀ acc, Mono (readCommentValue fuel acc) := by
+  induction fuel with
+  | zero => intro acc; exact Mono.pure _
+  | succ fuel ih =>
+    intro acc
+    unfold Scan.readCommentValue
+    refine Mono.getS_bind (fun _ => Mono.bind (Mono.skipBlanks _) (fun _ => Mono.getS_bind (fun _ =>
+      Mono.bind (Mono.readLine _ _) (fun _ => Mono.bind (Mono.lookingAt _) (fun _ =>
+        Mono.ite (Mono.bind (Mono.skipN _) (fun _ => ih _)) (Mono.pure _))))))
+
+theorem Mono.skipComment : Mono skipComment := by
+  unfold Scan.skipComment
+  refine Mono.bind (Mono.attempt (Mono.skipRequiredByte _)) (fun r => ?_)
+  split
+  · exact Mono.getS_bind (fun _ => Mono.skipToEOL _)
+  · exact Mono.pure _
+
+theorem Mono.readStructuredComment : Mono readStructuredComment := by
+  unfold Scan.readStructuredComment
+  refine Mono.bind (Mono.lookingAt _) (fun x => Mono.ite (Mono.pure _) (Mono.bind (Mono.skipN _) (fun _ =>
+    Mono.getS_bind (fun _ => Mono.bind (Mono.attempt (Mono.readCommentKey _ _)) (fun r => ?_)))))
+  split
+  · exact Mono.getS_bind (fun _ => Mono.bind (Mono.skipToEOL _) (fun _ => Mono.pure _))
+  · refine Mono.ite (Mono.getS_bind (fun _ => Mono.bind (Mono.skipToEOL _) (fun _ => Mono.pure _))) ?_
+    refine Mono.getS_bind (fun _ => Mono.bind (Mono.attempt (Mono.readCommentValue _ _)) (fun r => ?_))
+    split <;> exact Mono.pure _
+
+/-! ### fuel independence on clear scanners -/
+
+def CL (n : Nat) (s : Scanner) : Prop := Clear s ∧ mu s ≤ n
+def CLT (n : Nat) (s : Scanner) : Prop := Clear s ∧ mu s < n
+def CP (n : Nat) (s : Scanner) : Prop := Clear s ∧ mu s ≤ n ∧ s.peek ≠ []
+
+/-- the two computations agree on every scanner state in `P` -/
+def AgreeOn {α : Type} (P : Scanner → Prop) (m m' : SM α) : Prop := ∀ s, P s → m s = m' s
+
+theorem AgreeOn.rfl {α : Type} {P : Scanner → Prop} (m : SM α) : AgreeOn P m m := fun _ _ => Eq.refl _
+
+theorem AgreeOn.mono {α : Type} {P Q : Scanner → Prop} {m m' : SM α} (h : AgreeOn Q m m') (hpq : ∀ s, P s → Q s) :
+    AgreeOn P m m' := fun s hs => h s (hpq s hs)
+
+theorem AgreeOn.bind {α β : Type} {P : Scanner → Prop} (Q : α → Scanner → Prop) {p : SM α} {k k' : α → SM β}
+    (hp : ∀ s, P s → ∀ a s', p s = (.ok a, s') → Q a s') (hk : ∀ a, AgreeOn (Q a) (k a) (k' a)) :
+    AgreeOn P (p >>= k) (p >>= k') := by
+  intro s hs
+  rw [bind_run, bind_run]
+  have := hp s hs
+  generalize p s = q at this
+  obtain ⟨r, s'⟩ := q
+  cases r with
+  | error e => rfl
+  | ok a => exact hk a s' (this a s' (Eq.refl _))
+
+theorem AgreeOn.bind_left {α β : Type} {P : Scanner → Prop} {p p' : SM α} {k : α → SM β} (h : AgreeOn P p p') :
+    AgreeOn P (p >>= k) (p' >>= k) := by
+  intro s hs
+  rw [bind_run, bind_run, h s hs]
+
+theorem AgreeOn.attempt {α : Type} {P : Scanner → Prop} {p p' : SM α} (h : AgreeOn P p p') :
+    AgreeOn P (Scan.attempt p) (Scan.attempt p') := by
+  intro s hs
+  simp [Scan.attempt, h s hs]
+
+theorem AgreeOn.ite {α : Type} {P : Scanner → Prop} {c : Prop} [Decidable c] {a a' b b' : SM α}
+    (ha : AgreeOn P a a') (hb : AgreeOn P b b') : AgreeOn P (if c then a else b) (if c then a' else b') := by
+  split <;> assumption
+
+theorem AgreeOn.getS_bind {β : Type} {P : Scanner → Prop} {k k' : Scanner → SM β} (h : ∀ s0, AgreeOn P (k s0) (k' s0)) :
+    AgreeOn P (getS >>= k) (getS >>= k') := by
+  intro s hs
+  rw [getS_bind_run, getS_bind_run]
+  exact h s s hs
+
+theorem AgreeOn.of_ih {α : Type} {n : Nat} {m m' : SM α} (ih : ∀ k, k < n → AgreeOn (CL k) m m') :
+    AgreeOn (CLT n) m m' := fun s hs => ih (mu s) hs.2 s ⟨hs.1, Nat.le_refl _⟩
+
+theorem CP.toCL {n : Nat} {s : Scanner} (h : CP n s) : CL n s := ⟨h.1, h.2.1⟩
+theorem CLT.toCL {n : Nat} {s : Scanner} (h : CLT n s) : CL n s := ⟨h.1, Nat.le_of_lt h.2⟩
+
+theorem AgreeOn.peek_bind {β : Type} {n : Nat} {K K' : UInt8 → SM β} (h : ∀ b, AgreeOn (CP n) (K b) (K' b)) :
+    AgreeOn (CL n) (Scan.peek >>= K) (Scan.peek >>= K') := by
+  refine AgreeOn.bind (fun _ => CP n) (fun s hs a s' he => ?_) h
+  obtain ⟨h1, h2, _, h4⟩ := peek_clear' s hs.1
+  rw [he] at h1 h2 h4
+  exact ⟨h1, by rw [h2]; exact hs.2, h4 a (Eq.refl _)⟩
+
+theorem AgreeOn.attempt_peek_bind {β : Type} {n : Nat} {K K' : Except Err UInt8 → SM β}
+    (hok : ∀ b, AgreeOn (CP n) (K (.ok b)) (K' (.ok b))) (herr : ∀ e, AgreeOn (CL n) (K (.error e)) (K' (.error e))) :
+    AgreeOn (CL n) (Scan.attempt Scan.peek >>= K) (Scan.attempt Scan.peek >>= K') := by
+  refine AgreeOn.bind (fun r s => (∀ b, r = .ok b → CP n s) ∧ (∀ e, r = .error e → CL n s))
+    (fun s hs a s' he => ?_) (fun r => ?_)
+  · obtain ⟨h1, h2, _, h4⟩ := peek_clear' s hs.1
+    have e2 : Scan.peek s = (a, s') := by
+      simp only [Scan.attempt] at he
+      generalize Scan.peek s = q at he
+      obtain ⟨r, t⟩ := q
+      cases he
+      rfl
+    rw [e2] at h1 h2 h4
+    exact ⟨fun b hb => ⟨h1, by rw [h2]; exact hs.2, h4 b hb⟩, fun e _ => ⟨h1, by rw [h2]; exact hs.2⟩⟩
+  · cases r with
+    | ok b => exact (hok b).mono (fun s hs => hs.1 b (Eq.refl _))
+    | error e => exact (herr e).mono (fun s hs => hs.2 e (Eq.refl _))
+
+theorem skipByte_CP {n : Nat} {s : Scanner} (hs : CP n s) : ∃ s', skipByte s = (.ok (), s') ∧ CLT n s' := by
+  obtain ⟨hc, hm, hp⟩ := hs
+  cases hpk : s.peek with
+  | nil => exact absurd hpk hp
+  | cons b p =>
+    refine ⟨_, skipByte_ok _ _ _ (next_peeked s b p hc.2 hpk), hc, ?_⟩
+    have : mu (bump b { s with peek := p }) + 1 = mu s := by simp [mu, bump, hpk]; omega
+    omega
+
+theorem AgreeOn.skipByte_bind {β : Type} {n : Nat} {K K' : Unit → SM β} (h : AgreeOn (CLT n) (K ()) (K' ())) :
+    AgreeOn (CP n) (skipByte >>= K) (skipByte >>= K') := by
+  refine AgreeOn.bind (fun _ => CLT n) (fun s hs a s' he => ?_) (fun _ => h)
+  obtain ⟨s'', h1, h2⟩ := skipByte_CP hs
+  rw [h1] at he
+  cases he
+  exact h2
+
+theorem next_CL {n : Nat} {s : Scanner} (hs : CL n s) :
+    (∀ b s', next s = (.ok b, s') → CLT n s') ∧ (∀ e s', next s = (.error e, s') → CL n s') := by
+  obtain ⟨h1, h2, h3⟩ := next_clear s hs.1
+  constructor
+  · intro b s' he
+    rw [he] at h1 h2
+    exact ⟨h1, by have := h2 b (Eq.refl _); dsimp only at this; have := hs.2; omega⟩
+  · intro e s' he
+    rw [he] at h1 h3
+    exact ⟨h1, by have := h3 e (Eq.refl _); dsimp only at this; have := hs.2; omega⟩
+
+theorem AgreeOn.next_bind {β : Type} {n : Nat} {K K' : UInt8 → SM β} (h : ∀ b, AgreeOn (CLT n) (K b) (K' b)) :
+    AgreeOn (CL n) (next >>= K) (next >>= K') :=
+  AgreeOn.bind (fun _ => CLT n) (fun _ hs a s' he => (next_CL hs).1 a s' he) h
+
+theorem AgreeOn.attempt_next_bind {β : Type} {n : Nat} {K K' : Except Err UInt8 → SM β}
+    (hok : ∀ b, AgreeOn (CLT n) (K (.ok b)) (K' (.ok b))) (herr : ∀ e, AgreeOn (CL n) (K (.error e)) (K' (.error e))) :
+    AgreeOn (CL n) (Scan.attempt next >>= K) (Scan.attempt next >>= K') := by
+  refine AgreeOn.bind (fun r s => (∀ b, r = .ok b → CLT n s) ∧ (∀ e, r = .error e → CL n s))
+    (fun s hs a s' he => ?_) (fun r => ?_)
+  · have e2 : next s = (a, s') := by
+      simp only [Scan.attempt] at he
+      generalize next s = q at he
+      obtain ⟨r, t⟩ := q
+      cases he
+      rfl
+    exact ⟨fun b hb => (next_CL hs).1 b s' (by rw [e2, hb]), fun e hb => (next_CL hs).2 e s' (by rw [e2, hb])⟩
+  · cases r with
+    | ok b => exact (hok b).mono (fun s hs => hs.1 b (Eq.refl _))
+    | error e => exact (herr e).mono (fun s hs => hs.2 e (Eq.refl _))
+
+/-- a monotone prefix keeps the class `CLT n` -/
+theorem AgreeOn.mono_bind {α β : Type} {n : Nat} {p : SM α} {K K' : α → SM β} (hm : Mono p)
+    (h : ∀ a, AgreeOn (CLT n) (K a) (K' a)) : AgreeOn (CLT n) (p >>= K) (p >>= K') := by
+  refine AgreeOn.bind (fun _ => CLT n) (fun s hs a s' he => ?_) h
+  have := hm s hs.1
+  rw [he] at this
+  exact ⟨this.1, Nat.lt_of_le_of_lt this.2 hs.2⟩
+
+theorem AgreeOn.mono_bind_CL {α β : Type} {n : Nat} {p : SM α} {K K' : α → SM β} (hm : Mono p)
+    (h : ∀ a, AgreeOn (CL n) (K a) (K' a)) : AgreeOn (CL n) (p >>= K) (p >>= K') := by
+  refine AgreeOn.bind (fun _ => CL n) (fun s hs a s' he => ?_) h
+  have := hm s hs.1
+  rw [he] at this
+  exact ⟨this.1, Nat.le_trans this.2 hs.2⟩
+
+/-- the result of the loop `L` does not depend on its fuel once the fuel exceeds what is left to read -/
+def FI {α : Type} (L : Nat → SM α) : Prop := ∀ n f f', n < f → n < f' → AgreeOn (CL n) (L f) (L f')
+
+theorem FI.readRegular : ∀ n f f', n < f → n < f' → ∀ acc, AgreeOn (CL n) (readRegular f acc) (readRegular f' acc) := by
+  intro n
+  induction n using Nat.strongRecOn with
+  | _ n ih =>
+    intro f f' hf hf' acc
+    obtain ⟨g, rfl⟩ : ∃ g, f = g + 1 := ⟨f - 1, by omega⟩
+    obtain ⟨g', rfl⟩ : ∃ g, f' = g + 1 := ⟨f' - 1, by omega⟩
+    unfold Scan.readRegular
+    refine AgreeOn.attempt_peek_bind (fun b => ?_) (fun e => ?_)
+    · dsimp only
+      exact AgreeOn.ite (AgreeOn.rfl _) (AgreeOn.skipByte_bind (AgreeOn.of_ih
+        (fun k hk => ih k hk g g' (by omega) (by omega) _)))
+    · cases e <;> exact AgreeOn.rfl _
+
+theorem FI.readCommentKey : ∀ n f f', n < f → n < f' → ∀ acc, AgreeOn (CL n) (readCommentKey f acc) (readCommentKey f' acc) := by
+  intro n
+  induction n using Nat.strongRecOn with
+  | _ n ih =>
+    intro f f' hf hf' acc
+    obtain ⟨g, rfl⟩ : ∃ g, f = g + 1 := ⟨f - 1, by omega⟩
+    obtain ⟨g', rfl⟩ : ∃ g, f' = g + 1 := ⟨f' - 1, by omega⟩
+    unfold Scan.readCommentKey
+    refine AgreeOn.attempt_peek_bind (fun b => ?_) (fun e => ?_)
+    · dsimp only
+      exact AgreeOn.ite (AgreeOn.rfl _) (AgreeOn.skipByte_bind (AgreeOn.ite (AgreeOn.rfl _) (AgreeOn.of_ih
+        (fun k hk => ih k hk g g' (by omega) (by omega) _))))
+    · cases e <;> exact AgreeOn.rfl _
+
+theorem FI.skipBlanks : ∀ n f f', n < f → n < f' → AgreeOn (CL n) (skipBlanks f) (skipBlanks f') := by
+  intro n
+  induction n using Nat.strongRecOn with
+  | _ n ih =>
+    intro f f' hf hf'
+    obtain ⟨g, rfl⟩ : ∃ g, f = g + 1 := ⟨f - 1, by omega⟩
+    obtain ⟨g', rfl⟩ : ∃ g, f' = g + 1 := ⟨f' - 1, by omega⟩
+    unfold Scan.skipBlanks
+    refine AgreeOn.attempt_peek_bind (fun b => ?_) (fun e => ?_)
+    · dsimp only
+      exact AgreeOn.ite (AgreeOn.rfl _) (AgreeOn.skipByte_bind (AgreeOn.of_ih
+        (fun k hk => ih k hk g g' (by omega) (by omega))))
+    · cases e <;> exact AgreeOn.rfl _
+
+theorem FI.skipToEOL : ∀ n f f', n < f → n < f' → AgreeOn (CL n) (skipToEOL f) (skipToEOL f') := by
+  intro n
+  induction n using Nat.strongRecOn with
+  | _ n ih =>
+    intro f f' hf hf'
+    obtain ⟨g, rfl⟩ : ∃ g, f = g + 1 := ⟨f - 1, by omega⟩
+    obtain ⟨g', rfl⟩ : ∃ g, f' = g + 1 := ⟨f' - 1, by omega⟩
+    unfold Scan.skipToEOL
+    refine AgreeOn.attempt_next_bind (fun b => ?_) (fun e => ?_)
+    · dsimp only
+      exact AgreeOn.ite (AgreeOn.rfl _) (AgreeOn.ite (AgreeOn.rfl _) (AgreeOn.of_ih
+        (fun k hk => ih k hk g g' (by omega) (by omega))))
+    · exact AgreeOn.rfl _
+
+theorem FI.readLine : ∀ n f f', n < f → n < f' → ∀ acc, AgreeOn (CL n) (readLine f acc) (readLine f' acc) := by
+  intro n
+  induction n using Nat.strongRecOn with
+  | _ n ih =>
+    intro f f' hf hf' acc
+    obtain ⟨g, rfl⟩ : ∃ g, f = g + 1 := ⟨f - 1, by omega⟩
+    obtain ⟨g', rfl⟩ : ∃ g, f' = g + 1 := ⟨f' - 1, by omega⟩
+    unfold Scan.readLine
+    refine AgreeOn.attempt_next_bind (fun b => ?_) (fun e => ?_)
+    · dsimp only
+      exact AgreeOn.ite (AgreeOn.rfl _) (AgreeOn.ite (AgreeOn.rfl _) (AgreeOn.of_ih
+        (fun k hk => ih k hk g g' (by omega) (by omega) _)))
+    · cases e <;> exact AgreeOn.rfl _
+
+theorem FI.readHexBody : ∀ n f f', n < f → n < f' → ∀ res first hi,
+    AgreeOn (CL n) (readHexBody f res first hi) (readHexBody f' res first hi) := by
+  intro n
+  induction n using Nat.strongRecOn with
+  | _ n ih =>
+    intro f f' hf hf' res first hi
+    obtain ⟨g, rfl⟩ : ∃ g, f = g + 1 := ⟨f - 1, by omega⟩
+    obtain ⟨g', rfl⟩ : ∃ g, f' = g + 1 := ⟨f' - 1, by omega⟩
+    unfold Scan.readHexBody
+    refine AgreeOn.next_bind (fun b => ?_)
+    have hi' : ∀ res first hi, AgreeOn (CLT n) (Scan.readHexBody g res first hi) (Scan.readHexBody g' res first hi) :=
+      fun _ _ _ => AgreeOn.of_ih (fun k hk => ih k hk g g' (by omega) (by omega) _ _ _)
+    refine AgreeOn.ite (AgreeOn.rfl _) (AgreeOn.ite (hi' _ _ _) ?_)
+    split
+    · exact AgreeOn.rfl _
+    · exact AgreeOn.ite (hi' _ _ _) (hi' _ _ _)
+
+theorem FI.readA85Body : ∀ n f f', n < f → n < f' → ∀ res pos val,
+    AgreeOn (CL n) (readA85Body f res pos val) (readA85Body f' res pos val) := by
+  intro n
+  induction n using Nat.strongRecOn with
+  | _ n ih =>
+    intro f f' hf hf' res pos val
+    obtain ⟨g, rfl⟩ : ∃ g, f = g + 1 := ⟨f - 1, by omega⟩
+    obtain ⟨g', rfl⟩ : ∃ g, f' = g + 1 := ⟨f' - 1, by omega⟩
+    unfold Scan.readA85Body
+    refine AgreeOn.next_bind (fun b => ?_)
+    have hi' : ∀ res pos val, AgreeOn (CLT n) (Scan.readA85Body g res pos val) (Scan.readA85Body g' res pos val) :=
+      fun _ _ _ => AgreeOn.of_ih (fun k hk => ih k hk g g' (by omega) (by omega) _ _ _)
+    repeat' (first
+      | exact hi' _ _ _
+      | exact AgreeOn.rfl _
+      | refine AgreeOn.ite ?_ ?_)
+
+theorem FI.readStringBody : ∀ n f f', n < f → n < f' → ∀ res level ign,
+    AgreeOn (CL n) (readStringBody f res level ign) (readStringBody f' res level ign) := by
+  intro n
+  induction n using Nat.strongRecOn with
+  | _ n ih =>
+    intro f f' hf hf' res level ign
+    obtain ⟨g, rfl⟩ : ∃ g, f = g + 1 := ⟨f - 1, by omega⟩
+    obtain ⟨g', rfl⟩ : ∃ g, f' = g + 1 := ⟨f' - 1, by omega⟩
+    unfold Scan.readStringBody
+    refine AgreeOn.next_bind (fun b => ?_)
+    have hi' : ∀ res level ign, AgreeOn (CLT n) (Scan.readStringBody g res level ign) (Scan.readStringBody g' res level ign) :=
+      fun _ _ _ => AgreeOn.of_ih (fun k hk => ih k hk g g' (by omega) (by omega) _ _ _)
+    repeat' (first
+      | exact hi' _ _ _
+      | exact AgreeOn.rfl _
+      | refine AgreeOn.ite ?_ ?_
+      | refine AgreeOn.mono_bind Mono.next (fun e => ?_)
+      | refine AgreeOn.mono_bind (Mono.readOctal _ _) (fun oct => ?_))
+
+theorem skipByte_total (s : Scanner) : ∃ s', skipByte s = (.ok (), s') := by
+  unfold skipByte
+  rw [bind_run]
+  simp only [Scan.attempt]
+  exact ⟨_, Eq.refl _⟩
+
+theorem skipN_total (k : Nat) : ∀ s, ∃ s', skipN k s = (.ok (), s') := by
+  induction k with
+  | zero => intro s; exact ⟨s, Eq.refl _⟩
+  | succ k ih =>
+    intro s
+    obtain ⟨s1, h1⟩ := skipByte_total s
+    obtain ⟨s2, h2⟩ := ih s1
+    refine ⟨s2, ?_⟩
+    unfold Scan.skipN
+    rw [bind_ok _ _ _ _ _ h1, h2]
+
+theorem skipN_CP {n : Nat} (k : Nat) {s : Scanner} (hs : CP n s) : ∃ s', skipN (k + 1) s = (.ok (), s') ∧ CLT n s' := by
+  obtain ⟨s1, h1, hc1⟩ := skipByte_CP hs
+  obtain ⟨s2, h2⟩ := skipN_total k s1
+  refine ⟨s2, ?_, ?_⟩
+  · unfold Scan.skipN
+    rw [bind_ok _ _ _ _ _ h1, h2]
+  · have := Mono.skipN k s1 hc1.1
+    rw [h2] at this
+    exact ⟨this.1, Nat.lt_of_le_of_lt this.2 hc1.2⟩
+
+/-- a prefix that strictly consumes, followed by a monotone rest, strictly consumes -/
+theorem strict_bind {α β : Type} {n : Nat} {p : SM α} {k : α → SM β} {s : Scanner}
+    (hp : ∃ a1 s1, p s = (.ok a1, s1) ∧ CLT n s1) (hk : ∀ a, Mono (k a)) : CLT n ((p >>= k) s).2 := by
+  obtain ⟨a1, s1, h1, hc1⟩ := hp
+  rw [bind_ok _ _ _ _ _ h1]
+  have := hk a1 s1 hc1.1
+  exact ⟨this.1, Nat.lt_of_le_of_lt this.2 hc1.2⟩
+
+theorem skipComment_CP {n : Nat} {s : Scanner} (hs : CP n s) : CLT n (skipComment s).2 := by
+  obtain ⟨hc, hm, hp⟩ := hs
+  cases hpk : s.peek with
+  | nil => exact absurd hpk hp
+  | cons b p =>
+    have hn := next_peeked s b p hc.2 hpk
+    have hclt : CLT n (bump b { s with peek := p }) := by
+      refine ⟨hc, ?_⟩
+      have : mu (bump b { s with peek := p }) + 1 = mu s := by simp [mu, bump, hpk]; omega
+      omega
+    unfold Scan.skipComment
+    refine strict_bind ?_ (fun r => ?_)
+    · by_cases hb : (b != 37) = true
+      · refine ⟨.error syntaxErr, _, ?_, hclt⟩
+        simp only [Scan.attempt, Scan.skipRequiredByte]
+        rw [bind_ok _ _ _ _ _ hn, if_pos hb]; rfl
+      · refine ⟨.ok (), _, ?_, hclt⟩
+        simp only [Scan.attempt, Scan.skipRequiredByte]
+        rw [bind_ok _ _ _ _ _ hn, if_neg hb]; rfl
+    · split
+      · exact Mono.getS_bind (fun _ => Mono.skipToEOL _)
+      · exact Mono.pure _
+
+/-- the scanner stands before `%%` (already peeked) -/
+def C2 (n : Nat) (s : Scanner) : Prop := CL n s ∧ s.peek.take 2 = [37, 37]
+
+theorem readStructuredComment_C2 {n : Nat} {s : Scanner} (hs : C2 n s) : CLT n (readStructuredComment s).2 := by
+  obtain ⟨⟨hc, hm⟩, h2⟩ := hs
+  have hp : s.peek ≠ [] := by intro h; rw [h] at h2; simp at h2
+  unfold Scan.readStructuredComment
+  rw [bind_ok _ _ _ _ _ (lookingAt_again [37, 37] s h2)]
+  simp only [Bool.not_true, Bool.false_eq_true, if_false]
+  refine strict_bind ?_ (fun _ => ?_)
+  · obtain ⟨s', h1, h2⟩ := skipN_CP 1 (s := s) ⟨hc, hm, hp⟩
+    exact ⟨(), s', h1, h2⟩
+  · refine Mono.getS_bind (fun _ => Mono.bind (Mono.attempt (Mono.readCommentKey _ _)) (fun r => ?_))
+    split
+    · exact Mono.getS_bind (fun _ => Mono.bind (Mono.skipToEOL _) (fun _ => Mono.pure _))
+    · refine Mono.ite (Mono.getS_bind (fun _ => Mono.bind (Mono.skipToEOL _) (fun _ => Mono.pure _))) ?_
+      refine Mono.getS_bind (fun _ => Mono.bind (Mono.attempt (Mono.readCommentValue _ _)) (fun r => ?_))
+      split <;> exact Mono.pure _
+
+theorem FI.readCommentValue : ∀ n f f', n < f → n < f' → ∀ acc,
+    AgreeOn (CL n) (readCommentValue f acc) (readCommentValue f' acc) := by
+  intro n
+  induction n using Nat.strongRecOn with
+  | _ n ih =>
+    intro f f' hf hf' acc
+    obtain ⟨g, rfl⟩ : ∃ g, f = g + 1 := ⟨f - 1, by omega⟩
+    obtain ⟨g', rfl⟩ : ∃ g, f' = g + 1 := ⟨f' - 1, by omega⟩
+    unfold Scan.readCommentValue
+    refine AgreeOn.getS_bind (fun _ => AgreeOn.mono_bind_CL (Mono.skipBlanks _) (fun _ =>
+      AgreeOn.getS_bind (fun _ => AgreeOn.mono_bind_CL (Mono.readLine _ _) (fun acc' => ?_))))
+    refine AgreeOn.bind (fun x s => CL n s ∧ (x = true → s.peek ≠ [])) (fun s hs x s' he => ?_) (fun x => ?_)
+    · obtain ⟨x', s'', h1, h2, h3, _, h5⟩ := lookingAt_spec [37, 37, 43] s hs.1
+      rw [h1] at he
+      cases he
+      refine ⟨⟨h2, by rw [mu_of_stream h3]; exact hs.2⟩, fun hx h => ?_⟩
+      have := h5 hx
+      rw [h] at this
+      simp at this
+    · cases x with
+      | false => exact AgreeOn.rfl _
+      | true =>
+        simp only [if_true]
+        refine AgreeOn.bind (fun _ => CLT n) (fun s hs a s' he => ?_) (fun _ => AgreeOn.of_ih
+          (fun k hk => ih k hk g g' (by omega) (by omega) _))
+        obtain ⟨s'', h1, h2⟩ := skipN_CP 2 (s := s) ⟨hs.1.1, hs.1.2, hs.2 (by first | rfl | trivial)⟩
+        rw [h1] at he
+        cases he
+        exact h2
+
+theorem FI.skipWhiteSpace : ∀ n f f', n < f → n < f' → AgreeOn (CL n) (skipWhiteSpace f) (skipWhiteSpace f') := by
+  intro n
+  induction n using Nat.strongRecOn with
+  | _ n ih =>
+    intro f f' hf hf'
+    obtain ⟨g, rfl⟩ : ∃ g, f = g + 1 := ⟨f - 1, by omega⟩
+    obtain ⟨g', rfl⟩ : ∃ g, f' = g + 1 := ⟨f' - 1, by omega⟩
+    have hi' : AgreeOn (CLT n) (Scan.skipWhiteSpace g) (Scan.skipWhiteSpace g') :=
+      AgreeOn.of_ih (fun k hk => ih k hk g g' (by omega) (by omega))
+    have hcom : AgreeOn (CP n) (skipComment >>= fun _ => Scan.skipWhiteSpace g) (skipComment >>= fun _ => Scan.skipWhiteSpace g') := by
+      refine AgreeOn.bind (fun _ => CLT n) (fun s hs a s' he => ?_) (fun _ => hi')
+      have := skipComment_CP hs
+      rw [he] at this
+      exact this
+    unfold Scan.skipWhiteSpace
+    refine AgreeOn.peek_bind (fun b => AgreeOn.ite (AgreeOn.skipByte_bind hi') (AgreeOn.ite ?_ (AgreeOn.rfl _)))
+    refine AgreeOn.getS_bind (fun s0 => ?_)
+    refine AgreeOn.bind (fun x s => CP n s ∧ (x = true → C2 n s)) (fun s hs x s' he => ?_) (fun x => ?_)
+    · obtain ⟨x', s'', h1, h2, h3, h4, h5⟩ := lookingAt_spec [37, 37] s hs.1
+      rw [h1] at he
+      cases he
+      have hcl : CL n s' := ⟨h2, by rw [mu_of_stream h3]; exact hs.2.1⟩
+      refine ⟨⟨hcl.1, hcl.2, fun h => hs.2.2 ?_⟩, fun hx => ⟨hcl, h5 hx⟩⟩
+      rw [h] at h4
+      exact List.eq_nil_of_length_eq_zero (Nat.le_zero.mp h4)
+    · cases x with
+      | false =>
+        simp only [Bool.and_false, Bool.false_eq_true, if_false]
+        exact hcom.mono (fun s hs => hs.1)
+      | true =>
+        refine AgreeOn.ite ?_ (hcom.mono (fun s hs => hs.1))
+        refine AgreeOn.bind (fun _ => CLT n) (fun s hs a s' he => ?_) (fun r => ?_)
+        · have := readStructuredComment_C2 (hs.2 (by first | rfl | trivial))
+          rw [he] at this
+          exact this
+        · dsimp only
+          split
+          · exact AgreeOn.mono_bind (Mono.modS (fun s hc => ⟨hc, Nat.le_refl _⟩)) (fun _ => hi')
+          · exact hi'
+
+/-! ### the simulation through fuel taken from `fuelOf` -/
+
+theorem HexTail.length_le {cs t : List UInt8} (h : HexTail cs t) : cs.length ≤ t.length := by
+  induction h with
+  | nil => exact Nat.le_refl _
+  | cons hsp _ ih =>
+    obtain ⟨w1, a, w2, l, rfl, _⟩ := hsp
+    simp only [List.length_cons, List.length_append, List.length_nil]
+    omega
+
+theorem Layout.length_le {mode : Nat} {cs t : List UInt8} (h : Layout mode cs t) : cs.length ≤ t.length := by
+  rcases h with ⟨_, rfl⟩ | ⟨_, h⟩
+  · exact Nat.le_refl _
+  · exact h.length_le
+
+/-- the fuel computed on the eexec side is at least the fuel computed on the plain side -/
+theorem Sim.mu_lt_fuel {mode : Nat} {cipher rest : List UInt8} {se sp : Scanner} (h : Sim mode cipher rest se sp) :
+    mu sp < fuelOf se ∧ mu sp < fuelOf sp := by
+  obtain ⟨done, cs, t, _, hl, hse, _, hsp⟩ := h.stream
+  have h1 := hl.length_le
+  have h2 : sp.src.length = cs.length := by rw [hsp, PsVerif.Props.Cipher.decrypt_length]
+  have h3 : se.src.length = t.length + rest.length := by rw [hse, List.length_append]
+  have h4 : se.peek.length = sp.peek.length := by rw [h.peek_eq]
+  simp only [mu, fuelOf]
+  omega
+
+/-- **fuel from `fuelOf`**: a loop that is simulation-invariant at every fixed fuel and fuel-independent on clear
+scanners is simulation-invariant when its fuel is computed from the length of the raw source -/
+theorem SimM.fuel_bind {β : Type} (L : Nat → SM β) (c : Nat) (hs : ∀ f, SimM (L f)) (hfi : FI L) :
+    SimM (getS >>= fun s => L (fuelOf s + c)) := by
+  constructor
+  · intro mode cipher rest se sp h
+    rw [getS_bind_run, getS_bind_run]
+    have hmu := h.mu_lt_fuel
+    have e : L (fuelOf sp + c) sp = L (fuelOf se + c) sp :=
+      hfi (mu sp) _ _ (by omega) (by omega) sp ⟨⟨h.eexec_p, h.reg_p⟩, Nat.le_refl _⟩
+    rw [e]
+    exact (hs _).1 mode cipher rest se sp h
+  · intro sp h
+    rw [getS_bind_run]
+    exact (hs _).2 sp h
+
+theorem SimM.fuel_bind2 {α β : Type} (L : Nat → SM α) (c : Nat) (K : α → SM β) (hs : ∀ f, SimM (L f)) (hfi : FI L)
+    (hK : ∀ a, SimM (K a)) : SimM (getS >>= fun s => L (fuelOf s + c) >>= K) :=
+  SimM.fuel_bind (fun f => L f >>= K) c (fun f => SimM.bind (hs f) hK) (fun n f f' hf hf' => AgreeOn.bind_left (hfi n f f' hf hf'))
+
+/-- reading the scanner state: also the sticky error may be looked at -/
+theorem SimM.getS_bind' {β : Type} (k : List UInt8 → Nat → Option Err → SM β) (hk : ∀ p c e, SimM (k p c e)) :
+    SimM (getS >>= fun s => k s.peek s.col s.err) := by
+  constructor
+  · intro mode cipher rest se sp h
+    rw [getS_bind_run, getS_bind_run, h.peek_eq, h.col_eq, h.err_eq]
+    exact (hk _ _ _).1 mode cipher rest se sp h
+  · intro sp h
+    rw [getS_bind_run]
+    exact (hk _ _ _).2 sp h
+
+theorem SimM.skipComment : SimM skipComment := by
+  unfold Scan.skipComment
+  refine SimM.bind (SimM.attempt (SimM.skipRequiredByte _)) (fun r => ?_)
+  split
+  · exact SimM.fuel_bind (fun f => Scan.skipToEOL f) 0 SimM.skipToEOL FI.skipToEOL
+  · exact SimM.pure _
+
+theorem SimM.readCommentValue (fuel : Nat) : ∀ acc, SimM (readCommentValue fuel acc) := by
+  induction fuel with
+  | zero => intro acc; exact SimM.pure _
+  | succ fuel ih =>
+    intro acc
+    unfold Scan.readCommentValue
+    refine SimM.fuel_bind2 (fun f => Scan.skipBlanks f) 0 _ SimM.skipBlanks FI.skipBlanks (fun _ => ?_)
+    refine SimM.fuel_bind2 (fun f => Scan.readLine f acc) 0 _ (fun f => SimM.readLine f acc)
+      (fun n f f' hf hf' => FI.readLine n f f' hf hf' acc) (fun acc' => ?_)
+    exact SimM.bind (SimM.lookingAt _) (fun x => SimM.ite (SimM.bind (SimM.skipN _) (fun _ => ih _)) (SimM.pure _))
+
+theorem SimM.readStructuredComment : SimM readStructuredComment := by
+  unfold Scan.readStructuredComment
+  refine SimM.bind (SimM.lookingAt _) (fun x => SimM.ite (SimM.pure _) (SimM.bind (SimM.skipN _) (fun _ => ?_)))
+  have heol : SimM (getS >>= fun s => Scan.skipToEOL (fuelOf s) >>= fun _ => (Pure.pure none : SM (Option (List UInt8 × List UInt8)))) :=
+    SimM.fuel_bind2 (fun f => Scan.skipToEOL f) 0 _ SimM.skipToEOL FI.skipToEOL (fun _ => SimM.pure _)
+  refine SimM.fuel_bind2 (fun f => Scan.attempt (Scan.readCommentKey f [])) 0 _
+    (fun f => SimM.attempt (SimM.readCommentKey f []))
+    (fun n f f' hf hf' => AgreeOn.attempt (FI.readCommentKey n f f' hf hf' [])) (fun r => ?_)
+  split
+  · exact heol
+  · refine SimM.ite heol ?_
+    refine SimM.fuel_bind2 (fun f => Scan.attempt (Scan.readCommentValue f [])) 0 _
+      (fun f => SimM.attempt (SimM.readCommentValue f []))
+      (fun n f f' hf hf' => AgreeOn.attempt (FI.readCommentValue n f f' hf hf' [])) (fun r => ?_)
+    split <;> exact SimM.pure _
+
+theorem Benign.pushDsc (kv : String × String) : Benign (fun s => { s with dsc := s.dsc ++ [kv] }) :=
+  ⟨fun _ _ _ _ _ h => ⟨h.mode_ok, h.eexec_e, h.eexec_p, h.reg_e, h.reg_p, h.peek_eq, h.stream, h.line_eq,
+      h.col_eq, h.crSeen_eq, by simp [h.dsc_eq], h.err_eq, h.fault_eq⟩,
+   fun _ h => h⟩
+
+theorem SimM.skipWhiteSpace (fuel : Nat) : SimM (skipWhiteSpace fuel) := by
+  induction fuel with
+  | zero => exact SimM.fail _
+  | succ fuel ih =>
+    unfold Scan.skipWhiteSpace
+    refine SimM.bind SimM.peek (fun b => SimM.ite (SimM.bind SimM.skipByte (fun _ => ih)) (SimM.ite ?_ (SimM.pure _)))
+    refine SimM.getS_bind' (fun _ c _ => Scan.lookingAt [37, 37] >>= fun x =>
+      if (c == 0 && x) = true then _ else _) (fun p c e => ?_)
+    refine SimM.bind (SimM.lookingAt _) (fun x => SimM.ite ?_ (SimM.bind SimM.skipComment (fun _ => ih)))
+    refine SimM.bind SimM.readStructuredComment (fun r => ?_)
+    dsimp only
+    split
+    · exact SimM.bind (SimM.modS (Benign.pushDsc _)) (fun _ => ih)
+    · exact ih
+
+theorem SimM.readString : SimM readString := by
+  unfold Scan.readString
+  exact SimM.bind (SimM.skipRequiredByte _) (fun _ =>
+    SimM.fuel_bind (fun f => Scan.readStringBody f [] 1 false) 0 (fun f => SimM.readStringBody f _ _ _)
+      (fun n f f' hf hf' => FI.readStringBody n f f' hf hf' _ _ _))
+
+theorem SimM.readHexString : SimM readHexString := by
+  unfold Scan.readHexString
+  exact SimM.bind (SimM.skipRequiredByte _) (fun _ =>
+    SimM.fuel_bind (fun f => Scan.readHexBody f [] true 0) 0 (fun f => SimM.readHexBody f _ _ _)
+      (fun n f f' hf hf' => FI.readHexBody n f f' hf hf' _ _ _))
+
+theorem SimM.readBase85String : SimM readBase85String := by
+  unfold Scan.readBase85String
+  refine SimM.bind (SimM.skipRequiredByte _) (fun _ => SimM.bind (SimM.skipRequiredByte _) (fun _ => ?_))
+  refine SimM.fuel_bind2 (fun f => Scan.readA85Body f [] 0 0) 0 _ (fun f => SimM.readA85Body f _ _ _)
+    (fun n f f' hf hf' => FI.readA85Body n f f' hf hf' _ _ _) (fun r => ?_)
+  refine SimM.bind ?_ (fun _ => SimM.bind (SimM.skipRequiredByte _) (fun _ => SimM.pure _))
+  repeat' (first | exact SimM.pure _ | exact SimM.fail _ | refine SimM.ite ?_ ?_)
+
+/-- **`ScanToken`** cannot tell an eexec section from its plaintext -/
+theorem SimM.scanToken : SimM scanToken := by
+  unfold Scan.scanToken
+  refine SimM.fuel_bind2 (fun f => Scan.skipWhiteSpace f) 4 _ SimM.skipWhiteSpace FI.skipWhiteSpace (fun _ => ?_)
+  refine SimM.bind SimM.peek (fun b => ?_)
+  refine SimM.ite (SimM.bind SimM.readString (fun _ => SimM.pure _)) (SimM.ite ?_ (SimM.ite ?_ (SimM.ite ?_ ?_)))
+  · refine SimM.bind (SimM.peekN _ _) (fun bb => SimM.ite
+      (SimM.bind SimM.skipByte (fun _ => SimM.bind SimM.skipByte (fun _ => SimM.pure _)))
+      (SimM.ite (SimM.bind SimM.readBase85String (fun _ => SimM.pure _))
+        (SimM.bind SimM.readHexString (fun _ => SimM.pure _))))
+  · refine SimM.bind (SimM.peekN _ _) (fun bb => SimM.ite
+      (SimM.bind SimM.skipByte (fun _ => SimM.bind SimM.skipByte (fun _ => SimM.pure _))) ?_)
+    refine SimM.getS_bind' (fun _ _ e => match (if bb.length < 2 then e else none) with
+      | some e => Scan.fail e
+      | none => Scan.fail syntaxErr) (fun p c e => ?_)
+    split <;> exact SimM.fail _
+  · refine SimM.bind SimM.skipByte (fun _ => ?_)
+    exact SimM.fuel_bind2 (fun f => Scan.readRegular f []) 0 _ (fun f => SimM.readRegular f _)
+      (fun n f f' hf hf' => FI.readRegular n f f' hf hf' _) (fun _ => SimM.pure _)
+  · refine SimM.bind SimM.skipByte (fun _ => ?_)
+    refine SimM.fuel_bind2 (fun f => if isRegular b = true then Scan.readRegular f [b] else Pure.pure [b]) 0 _
+      (fun f => SimM.ite (SimM.readRegular f _) (SimM.pure _))
+      (fun n f f' hf hf' => AgreeOn.ite (FI.readRegular n f f' hf hf' _) (AgreeOn.rfl _)) (fun bytes => ?_)
+    split <;> exact SimM.pure _
+
+
 #print axioms eexec_begin_binary
 #print axioms eexec_begin_hex
 #print axioms eexec_stream
 #print axioms SimM.readStringBody
 #print axioms Sim.endEexec_at_end
+#print axioms SimM.scanToken
 
 end PsVerif.Proofs.EexecStream
